@@ -535,6 +535,19 @@ class Engine:
             if ext_self: cands = [f for f in cands if (selfpath.get(f) or '').split('::')[0] == ext_self]
             cands = self._pick(cands, scrate)
             if len(cands) > 1:
+                # a candidate whose impl text qualifies its self type with a module that contradicts the requested one is dropped
+                req_mod = [x for x in sty_norm.split('::')[:-1] if x != 'crate']
+                def compatible(f):
+                    sp = selfpath.get(f) or ''
+                    cm = [x for x in sp.split('::')[:-1] if x != 'crate']
+                    if not cm and sp and '::<impl' in f.name:
+                        cm = f.name.split('::<impl')[0].split('::')       # unqualified self type: defined in the impl's own module
+                    if not cm or not req_mod: return True
+                    k = min(len(cm), len(req_mod))
+                    return cm[-k:] == req_mod[-k:] or cm[:k] == req_mod[:k]
+                c2 = [f for f in cands if compatible(f)]
+                if c2: cands = c2
+            if len(cands) > 1:
                 # disambiguate by module of the self type
                 mod = '::'.join(sty_norm.split('::')[:-1])
                 if mod:
@@ -555,6 +568,30 @@ class Engine:
                     mi = re.match(r'^.*?<(.*)>$', info['trait'] or '')
                     if mi and targ and last_seg(split_top(mi.group(1))[0]) == targ: c2.append(f)
                 if c2: cands = c2
+            if len(cands) > 1:
+                # exact comparison of the trait text (paths kept, only whitespace / lifetimes / `crate::` removed)
+                def keep(t): return re.sub(r'\s+', '', re.sub(r"'\w+\s*", '', (t or '').replace('crate::', '')))
+                c2 = [f for f in cands if keep(P.impl_info(f)['trait']) == keep(trait)]
+                if len(c2) == 1: cands = c2
+            if len(cands) > 1:
+                # module-aware comparison of every path inside the trait's generic arguments
+                def paths(t): return re.findall(r'(?:\w+::)*\w+', re.sub(r"'\w+", '', t or ''))
+                def modcompat(rq, im, impl_mod):
+                    rq = [x for x in rq.split('::') if x != 'crate']; im = [x for x in im.split('::') if x != 'crate']
+                    if rq[-1] != im[-1]: return False
+                    rm, mm = rq[:-1], im[:-1]
+                    if not mm and im[-1][:1].isupper() and im[-1] not in ('Vec', 'Option', 'String', 'Box', 'Result', 'Self'): mm = impl_mod
+                    if not rm or not mm: return True
+                    k = min(len(rm), len(mm))
+                    return rm[-k:] == mm[-k:] or rm[:k] == mm[:k]
+                def tmatch(f):
+                    it = P.impl_info(f)['trait'] or ''
+                    a, b = paths(trait), paths(it)
+                    if len(a) != len(b): return False
+                    im = f.name.split('::<impl')[0].split('::') if '::<impl' in f.name else []
+                    return all(modcompat(x, y, im) for x, y in zip(a, b))
+                c2 = [f for f in cands if tmatch(f)]
+                if len(c2) >= 1: cands = c2
             if len(cands) > 1:
                 # full textual comparison of trait args
                 c2 = [f for f in cands if self._impl_matches(P.impl_info(f), selfty, trait)]
